@@ -50,11 +50,15 @@ Definition s_suite_list (b : list byte) (o : Z) : option (list suite * Z) :=
   let c := le16 b o in
   if zlen b <? o + 2 + 4 * c then None else Some (s_suites (Z.to_nat (Z.min c 6)) b (o + 2), o + 2 + 4 * c).
 
+(* version and group cipher suite are mandatory; the pairwise list, the key-management list and the capabilities
+   are optional in this order (IEEE 802.11 9.4.2.25: "all fields after the Version field are optional") *)
 Definition s_rsn_decode (b : list byte) : option rsn_info :=
   if zlen b <? 6 then None else
+  if zlen b =? 6 then Some {| r_version := le16 b 0; r_group := s_suite_at b 2; r_pairwise := []; r_akms := []; r_caps := 0 |} else
   match s_suite_list b 6 with
   | None => None
   | Some (pw, o2) =>
+    if zlen b =? o2 then Some {| r_version := le16 b 0; r_group := s_suite_at b 2; r_pairwise := pw; r_akms := []; r_caps := 0 |} else
     match s_suite_list b o2 with
     | None => None
     | Some (ak, o3) =>
@@ -65,9 +69,11 @@ Definition s_rsn_decode (b : list byte) : option rsn_info :=
 (* b is the whole vendor element body: OUI(3) type(1) version(2) multicast(4) ... *)
 Definition s_wpa_decode (b : list byte) : option wpa_info :=
   if zlen b <? 10 then None else
+  if zlen b =? 10 then Some {| wi_version := le16 b 4; wi_multicast := s_suite_at b 6; wi_unicast := []; wi_akms := [] |} else
   match s_suite_list b 10 with
   | None => None
   | Some (uc, o2) =>
+    if zlen b =? o2 then Some {| wi_version := le16 b 4; wi_multicast := s_suite_at b 6; wi_unicast := uc; wi_akms := [] |} else
     match s_suite_list b o2 with
     | None => None
     | Some (ak, _) => Some {| wi_version := le16 b 4; wi_multicast := s_suite_at b 6; wi_unicast := uc; wi_akms := ak |}
